@@ -493,6 +493,29 @@ func (x Expr) FirstNode(n gen.Node) (result gen.Node) {
 			}
 			stack = append(stack, prev)
 		case Union:
+			if fi == index(len(x))-1 { // last one, the first listed member that is present
+				for _, u := range tf {
+					switch tu := u.(type) {
+					case string:
+						if tv, ok := prev.(gen.Object); ok {
+							if v, has = tv[tu]; has {
+								return v
+							}
+						}
+					case int64:
+						i := int(tu)
+						if tv, ok := prev.(gen.Array); ok {
+							if i < 0 {
+								i = len(tv) + i
+							}
+							if 0 <= i && i < len(tv) {
+								return tv[i]
+							}
+						}
+					}
+				}
+				continue
+			}
 			for ui := len(tf) - 1; 0 <= ui; ui-- {
 				u := tf[ui]
 				switch tu := u.(type) {
